@@ -380,4 +380,254 @@ theorem neb_strC (e : Env) (tape : Array UInt64) (fuel : Nat) (off : Nat) (b : B
   simp only [nebStrC, nebStr, nebSwitch, swCase, goObject_NextElementBytes, List.drop, List.headD]
   cases b <;> simp [h1, he, Env.get_set]
 
+/-- what `case TagString:` leaves: the name in `name` and `o.off` after the two name words, or an error return -/
+def StrPost (pj : PJ) (lim off : Nat) (d : Iter) (o : Out) (r : Res Bytes) : Prop :=
+  match r with
+  | .ok nm => ∃ e', o = .normal ⟨e', pj.tape⟩ ∧ NEInit pj ⟨lim, off + 2⟩ d ⟨e', pj.tape⟩ ∧
+      e'.get "name" = some (.bytes nm)
+  | _ => ∃ e', o = .ret ⟨e', pj.tape⟩ [.bytes #[], .u8 0, .bool true] ∧ NEInit pj ⟨lim, off⟩ d ⟨e', pj.tape⟩
+
+theorem neb_str_short (pj : PJ) (e : Env) (fuel : Nat) (off lim : Nat) (d : Iter) (w : UInt64)
+    (hi : NEInit pj ⟨lim, off⟩ d ⟨e, pj.tape⟩) (hv : e.get "v" = some (.u64 w)) (hsz : lim ≤ pj.tape.size)
+    (h : off + 2 ≥ lim) :
+    exec goFuns fuel nebStr ⟨e, pj.tape⟩ = .ret ⟨e, pj.tape⟩ [.bytes #[], .u8 0, .bool true] := by
+  obtain ⟨v1, v2⟩ := viewAt_get_o _ _ hi.view
+  rw [nebStr_split, exec_append, neb_strA e pj.tape fuel off lim w v1 v2 hv hsz, dif_pos h]
+
+theorem neb_str_long (pj : PJ) (e : Env) (f : Nat) (off lim : Nat) (d : Iter) (w len : UInt64) (hb : BufOK pj)
+    (hi : NEInit pj ⟨lim, off⟩ d ⟨e, pj.tape⟩) (hv : e.get "v" = some (.u64 w)) (hsz : lim ≤ pj.tape.size)
+    (h : ¬ off + 2 ≥ lim) (hlen : pj.tape[off + 1]? = some len) :
+    StrPost pj lim off d (exec goFuns (f + 1) nebStr ⟨e, pj.tape⟩) (stringByteAt pj (payloadOf w) len) := by
+  obtain ⟨v1, v2⟩ := viewAt_get_o _ _ hi.view
+  have hlen' : pj.tape[off + 1]'(by omega) = len := by
+    have : pj.tape[off + 1]? = some (pj.tape[off + 1]'(by omega)) := by simp
+    rw [this] at hlen
+    exact Option.some.inj hlen
+  rw [nebStr_split, exec_append, neb_strA e pj.tape f.succ off lim w v1 v2 hv hsz, dif_neg h, hlen']
+  simp only []
+  have hi2 : NEInit pj ⟨lim, off⟩ d ⟨(e.set "length" (.u64 len)).set "offset" (.u64 (payloadOf w)), pj.tape⟩ :=
+    (hi.set "length" _ (by decide)).set "offset" _ (by decide)
+  have h1 : ((e.set "length" (.u64 len)).set "offset" (.u64 (payloadOf w))).get "offset" = some (.u64 (payloadOf w)) := by
+    simp [Env.get_set]
+  have h2 : ((e.set "length" (.u64 len)).set "offset" (.u64 (payloadOf w))).get "length" = some (.u64 len) := by
+    simp [Env.get_set]
+  generalize (e.set "length" (.u64 len)).set "offset" (.u64 (payloadOf w)) = e2 at hi2 h1 h2 ⊢
+  obtain ⟨w1, w2⟩ := viewAt_get_o _ _ hi2.view
+  have hcall := callFun_sb ⟨e2, pj.tape⟩ pj "o" lim (.v "offset") (.v "length") (payloadOf w) len f hb
+    (by simpa using w2) hi2.strs hi2.msg (by simp [h1]) (by simp [h2])
+  simp only [String.reduceAppend] at hcall
+  have hi3 : NEInit pj ⟨lim, off⟩ d ⟨((e2.set "o.lim" (.int lim)).set "Strings.B" (.bytes pj.strings)).set "Message"
+      (.bytes pj.msg), pj.tape⟩ := by
+    refine ((hi2.reset "o.lim" _ w2).reset "Strings.B" _ ?_).reset "Message" _ ?_
+    · simp [Env.get_set]; exact hi2.strs
+    · simp [Env.get_set]; exact hi2.msg
+  generalize ((e2.set "o.lim" (.int lim)).set "Strings.B" (.bytes pj.strings)).set "Message" (.bytes pj.msg) = e3
+    at hcall hi3
+  rw [exec, exec1, hcall]
+  rcases stringByteAt_cases pj (payloadOf w) len with ⟨nm, hr⟩ | hr
+  · rw [hr]
+    simp only [sbVals, assignTargets, StrPost]
+    simp only [show ("err" == "_") = false from by decide, show ("name" == "_") = false from by decide,
+      Bool.false_eq_true, if_false]
+    have hi4 : NEInit pj ⟨lim, off⟩ d ⟨(e3.set "name" (.bytes nm)).set "err" (.bool false), pj.tape⟩ :=
+      (hi3.set "name" _ (by decide)).set "err" _ (by decide)
+    obtain ⟨x1, x2⟩ := viewAt_get_o _ _ hi4.view
+    rw [neb_strC _ pj.tape (f + 1) off false x1 (by simp [Env.get_set])]
+    simp only [Bool.false_eq_true, if_false]
+    refine ⟨_, rfl, hi4.setOff (off + 2), ?_⟩
+    simp [Env.get_set]
+  · rw [hr]
+    simp only [sbVals, assignTargets, StrPost]
+    simp only [show ("err" == "_") = false from by decide, show ("name" == "_") = false from by decide,
+      Bool.false_eq_true, if_false]
+    have hi4 : NEInit pj ⟨lim, off⟩ d ⟨(e3.set "name" (.bytes #[])).set "err" (.bool true), pj.tape⟩ :=
+      (hi3.set "name" _ (by decide)).set "err" _ (by decide)
+    obtain ⟨x1, x2⟩ := viewAt_get_o _ _ hi4.view
+    rw [neb_strC _ pj.tape (f + 1) off true x1 (by simp [Env.get_set])]
+    simp only [if_true]
+    exact ⟨_, rfl, hi4⟩
+
+/-! ### the value word: `*dst`, `elemSize`, the restriction of `dst`, the return -/
+
+/-- outcome of `o.NextElementBytes(dst)` against a result of the model (`d0`: the caller's `*dst` before the call):
+    * model `.ok (v', none)`: returns `(nil, TypeNone, nil)`, the receiver is `v'`, `*dst` is untouched;
+    * model `.ok (v', some (name, d, ty))`: returns `(name, ty, nil)`, the receiver is `v'`, `*dst` is `d`;
+    * model `.error _`: returns `(nil, TypeNone, non-nil)` (receiver and `*dst` are then unspecified, but present);
+    * model `.panic`: the interpreter panics;
+    in every returning case the document (tape, string buffer, message) is untouched (`NEInit`);
+    the interpreter is never stuck and never out of fuel. -/
+def SimNE (pj : PJ) (d0 : Iter) (o : Out) (r : Res (View × Option (Bytes × Iter × UInt8))) : Prop :=
+  match r with
+  | .ok (v', none) => ∃ s, o = .ret s [.bytes #[], .u8 typeNone, .bool false] ∧ NEInit pj v' d0 s
+  | .ok (v', some (name, d, ty)) => ∃ s, o = .ret s [.bytes name, .u8 ty, .bool false] ∧ NEInit pj v' d s
+  | .error _ => ∃ s v' d', o = .ret s [.bytes #[], .u8 typeNone, .bool true] ∧ NEInit pj v' d' s
+  | .panic => o = .panic
+  | .diverge => False
+
+/-- the model's continuation after the name (value word `w` at offset `off`) -/
+def tailModel (lim off : Nat) (nm : Bytes) (w : UInt64) : Res (View × Option (Bytes × Iter × UInt8)) :=
+  let off1 := off + 1
+  let d0 : Iter := { lim := lim, off := off1, addNext := 0, cur := payloadOf w, t := tagOf w }
+  let elemSize := (d0.calcNext false).addNext
+  let dd := d0.calcNext true
+  let e : Int := (off1 : Int) + elemSize
+  if elemSize < 0 then .error .generic
+  else if e > lim then .error .generic
+  else .ok ({ lim := lim, off := e.toNat }, some (nm, { dd with lim := e.toNat }, tagToType dd.t))
+
+/-- `calcNext` reads `t`, `cur`, `off` and overwrites `addNext`: the old `addNext` does not matter -/
+theorem calcNext_congr (x y : Iter) (b : Bool) (h1 : x.lim = y.lim) (h2 : x.off = y.off) (h3 : x.cur = y.cur)
+    (h4 : x.t = y.t) : x.calcNext b = y.calcNext b := by
+  obtain ⟨xl, xo, xa, xc, xt⟩ := x
+  obtain ⟨yl, yo, ya, yc, yt⟩ := y
+  simp only at h1 h2 h3 h4
+  subst h1 h2 h3 h4
+  unfold Iter.calcNext
+  simp only []
+
+theorem calcNext_fields (x : Iter) (b : Bool) :
+    (x.calcNext b).lim = x.lim ∧ (x.calcNext b).off = x.off ∧ (x.calcNext b).cur = x.cur ∧ (x.calcNext b).t = x.t := by
+  unfold Iter.calcNext
+  split
+  · exact ⟨rfl, rfl, rfl, rfl⟩
+  · split
+    · cases b <;> exact ⟨rfl, rfl, rfl, rfl⟩
+    · exact ⟨rfl, rfl, rfl, rfl⟩
+
+/-- `*dst` after the four field assignments (`addNext` still the caller's) -/
+def dstWord (lim off1 : Nat) (a : Int) (w : UInt64) : Iter :=
+  { lim := lim, off := off1, addNext := a, cur := payloadOf w, t := tagOf w }
+
+def nebTailA : List Stmt := nebTail.take 6
+def nebTailD : List Stmt := nebTail.drop 9
+
+theorem nebTail_split : nebTail = nebTailA ++ .call "dst" "Iter.calcNext" [.bool false] ::
+    .assign "elemSize" (.v "dst.addNext") :: .call "dst" "Iter.calcNext" [.bool true] :: nebTailD := rfl
+
+theorem neb_tailA (pj : PJ) (e : Env) (fuel : Nat) (off lim : Nat) (d : Iter)
+    (hi : NEInit pj ⟨lim, off⟩ d ⟨e, pj.tape⟩) (hlt : off < lim) (hsz : lim ≤ pj.tape.size) :
+    ∃ e6, exec goFuns fuel nebTailA ⟨e, pj.tape⟩ = .normal ⟨e6, pj.tape⟩ ∧
+      NEInit pj ⟨lim, off + 1⟩ (dstWord lim (off + 1) d.addNext (pj.tape[off]'(by omega))) ⟨e6, pj.tape⟩ ∧
+      e6.get "name" = e.get "name" := by
+  obtain ⟨ht, hv, hd, hS, hM⟩ := hi
+  obtain ⟨v1, v2⟩ := viewAt_get_o _ _ hv
+  obtain ⟨d1, d2, d3, d4, d5⟩ := iterAt_get_dst _ _ hd
+  simp only at v1 v2
+  have hr : pj.tape[off]? = some (pj.tape[off]'(by omega)) := by simp
+  generalize pj.tape[off]'(by omega) = w at hr
+  have htg : (w >>> 56).toUInt8 = tagOf w := rfl
+  have hp : w &&& 72057594037927935 = payloadOf w := rfl
+  refine ⟨(((((e.set "v" (.u64 w)).set "o.off" (.int ((off + 1 : Nat) : Int))).set "dst.cur" (.u64 (payloadOf w))).set
+    "dst.t" (.u8 (tagOf w))).set "dst.off" (.int ((off + 1 : Nat) : Int))).set "dst.lim" (.int lim), ?_, ?_, ?_⟩
+  · simp only [nebTailA, nebTail, goObject_NextElementBytes, List.drop, List.take]
+    simp [v1, v2, hlt, hr, htg, hp, Env.get_set]
+  · constructor
+    · rfl
+    · apply viewAt_of_gets <;> simp [Env.get_set, v2]
+    · apply iterAt_of_gets <;> simp [Env.get_set, d2, dstWord]
+    · simp [Env.get_set, hS]
+    · simp [Env.get_set, hM]
+  · simp [Env.get_set]
+
+theorem neb_tailD (pj : PJ) (e : Env) (fuel : Nat) (off1 lim : Nat) (dd : Iter) (es : Int) (nm : Bytes)
+    (hi : NEInit pj ⟨lim, off1⟩ dd ⟨e, pj.tape⟩) (hes : e.get "elemSize" = some (.int es))
+    (hnm : e.get "name" = some (.bytes nm)) :
+    exec goFuns fuel nebTailD ⟨e, pj.tape⟩ =
+      if es < 0 then .ret ⟨e, pj.tape⟩ [.bytes #[], .u8 0, .bool true]
+      else if (dd.off : Int) + es > dd.lim then .ret ⟨e, pj.tape⟩ [.bytes #[], .u8 0, .bool true]
+      else .ret ⟨(e.set "dst.lim" (.int ((dd.off : Int) + es))).set "o.off" (.int ((off1 : Int) + es)), pj.tape⟩
+        [.bytes nm, .u8 (tagToType dd.t), .bool false] := by
+  obtain ⟨ht, hv, hd, hS, hM⟩ := hi
+  obtain ⟨v1, v2⟩ := viewAt_get_o _ _ hv
+  obtain ⟨d1, d2, d3, d4, d5⟩ := iterAt_get_dst _ _ hd
+  simp only at v1 v2
+  simp only [nebTailD, nebTail, goObject_NextElementBytes, List.drop]
+  by_cases h1 : es < 0
+  · simp [v1, v2, d1, d2, d3, d4, d5, hes, hnm, h1, Env.get_set]
+  · by_cases h2 : (dd.off : Int) + es > dd.lim
+    · simp [v1, v2, d1, d2, d3, d4, d5, hes, hnm, h1, h2, Env.get_set]
+    · have h3 : (dd.off : Int) + es ≤ dd.lim := by omega
+      have h4 : (0 : Int) ≤ dd.off + es := by omega
+      simp [v1, v2, d1, d2, d3, d4, d5, hes, hnm, h1, h2, h3, h4, Env.get_set, tagToType]
+
+theorem exec1_assign_v (funs : String → Option FunDef) (fuel : Nat) (n k : String) (e : Env) (t : Array UInt64) (x : Val)
+    (h : e.get k = some x) : exec1 funs fuel (.assign n (.v k)) ⟨e, t⟩ = .normal ⟨e.set n x, t⟩ := by
+  simp [h]
+
+theorem neb_tail (pj : PJ) (e : Env) (f : Nat) (off lim : Nat) (d : Iter) (nm : Bytes)
+    (hi : NEInit pj ⟨lim, off⟩ d ⟨e, pj.tape⟩) (hnm : e.get "name" = some (.bytes nm)) (hlt : off < lim)
+    (hsz : lim ≤ pj.tape.size) :
+    SimNE pj d (exec goFuns (f + 1) nebTail ⟨e, pj.tape⟩) (tailModel lim off nm (pj.tape[off]'(by omega))) := by
+  obtain ⟨e6, h6, hi6, hn6⟩ := neb_tailA pj e (f + 1) off lim d hi hlt hsz
+  rw [nebTail_split, exec_append, h6]
+  simp only []
+  generalize pj.tape[off]'(by omega) = w at hi6 ⊢
+  rw [hnm] at hn6
+  -- dst.calcNext(false)
+  have hc0 : (dstWord lim (off + 1) d.addNext w).cur.toNat < 2^63 := by
+    have := payload_lt w; simp only [dstWord]; omega
+  rw [exec, call_calcNext_dst ⟨e6, pj.tape⟩ _ false f hi6.dst hc0]
+  simp only []
+  have hi7 := hi6.setDst ((dstWord lim (off + 1) d.addNext w).calcNext false)
+  have hn7 : (setIter e6 "dst" ((dstWord lim (off + 1) d.addNext w).calcNext false)).get "name" = some (.bytes nm) := by
+    rw [get_setIter_ne _ _ _ _ (by decide)]; exact hn6
+  obtain ⟨q1, q2, q3, q4⟩ := calcNext_fields (dstWord lim (off + 1) d.addNext w) false
+  have hes0 : ((dstWord lim (off + 1) d.addNext w).calcNext false).addNext =
+      ((dstWord lim (off + 1) 0 w).calcNext false).addNext := by
+    rw [calcNext_congr (dstWord lim (off + 1) d.addNext w) (dstWord lim (off + 1) 0 w) false rfl rfl rfl rfl]
+  have hc1 : ((dstWord lim (off + 1) d.addNext w).calcNext false).cur.toNat < 2^63 := by rw [q3]; exact hc0
+  have hdd : ((dstWord lim (off + 1) d.addNext w).calcNext false).calcNext true =
+      (dstWord lim (off + 1) 0 w).calcNext true :=
+    calcNext_congr _ _ true q1 q2 q3 q4
+  generalize (dstWord lim (off + 1) d.addNext w).calcNext false = dA at hi7 hn7 hes0 hc1 hdd ⊢
+  generalize setIter e6 "dst" dA = e7 at hi7 hn7 ⊢
+  -- elemSize := dst.addNext
+  have ha7 := (iterAt_get_dst _ _ hi7.dst).2.1
+  rw [exec, exec1_assign_v _ _ _ _ _ _ _ ha7]
+  simp only []
+  have hi8 := hi7.set "elemSize" (.int dA.addNext) (by decide)
+  have hn8 : (e7.set "elemSize" (.int dA.addNext)).get "name" = some (.bytes nm) := by
+    rw [Env.get_set_ne _ _ (by decide)]; exact hn7
+  have he8 : (e7.set "elemSize" (.int dA.addNext)).get "elemSize" = some (.int dA.addNext) := Env.get_set_self _ _ _
+  generalize e7.set "elemSize" (.int dA.addNext) = e8 at hi8 hn8 he8 ⊢
+  -- dst.calcNext(true)
+  rw [exec, call_calcNext_dst ⟨e8, pj.tape⟩ dA true f hi8.dst hc1]
+  simp only []
+  have hi9 := hi8.setDst (dA.calcNext true)
+  have hn9 : (setIter e8 "dst" (dA.calcNext true)).get "name" = some (.bytes nm) := by
+    rw [get_setIter_ne _ _ _ _ (by decide)]; exact hn8
+  have he9 : (setIter e8 "dst" (dA.calcNext true)).get "elemSize" = some (.int dA.addNext) := by
+    rw [get_setIter_ne _ _ _ _ (by decide)]; exact he8
+  rw [hdd] at hi9 hn9 he9 ⊢
+  rw [hes0] at he9
+  obtain ⟨r1, r2, r3, r4⟩ := calcNext_fields (dstWord lim (off + 1) 0 w) true
+  simp only [dstWord] at r1 r2 r3 r4 hi9 hn9 he9 ⊢
+  generalize setIter e8 "dst" _ = e9 at hi9 hn9 he9 ⊢
+  rw [neb_tailD pj e9 (f + 1) (off + 1) lim _ _ nm hi9 he9 hn9]
+  unfold tailModel
+  simp only [r1, r2]
+  generalize (Iter.calcNext { lim := lim, off := off + 1, addNext := 0, cur := payloadOf w, t := tagOf w } false).addNext
+    = es at he9 ⊢
+  generalize Iter.calcNext { lim := lim, off := off + 1, addNext := 0, cur := payloadOf w, t := tagOf w } true
+    = dT at r1 r2 r3 r4 hi9 ⊢
+  by_cases h1 : es < 0
+  · simp only [h1, if_true, SimNE]
+    exact ⟨_, _, _, rfl, hi9⟩
+  · by_cases h2 : ((off + 1 : Nat) : Int) + es > lim
+    · simp only [h1, h2, if_true, if_false, SimNE]
+      exact ⟨_, _, _, rfl, hi9⟩
+    · simp only [h1, h2, if_false, SimNE]
+      refine ⟨_, rfl, ?_⟩
+      obtain ⟨ht, hv, hd, hS, hM⟩ := hi9
+      obtain ⟨v1, v2⟩ := viewAt_get_o _ _ hv
+      obtain ⟨d1, d2, d3, d4, d5⟩ := iterAt_get_dst _ _ hd
+      simp only at v1 v2
+      have hnn : (0 : Int) ≤ ((off + 1 : Nat) : Int) + es := by omega
+      constructor
+      · rfl
+      · apply viewAt_of_gets <;> (simp [Env.get_set, v2]; try omega)
+      · apply iterAt_of_gets <;> (simp [Env.get_set, d1, d2, d3, d4, r2]; try omega)
+      · simp [Env.get_set, hS]
+      · simp [Env.get_set, hM]
+
 end SJ.GoObject
